@@ -1532,9 +1532,9 @@ def _decide(t, known=None):
             atoms[k] = term
         fixed[k] = val
     free = [k for k in atoms if k not in fixed]
-    if not (2 <= len(free) <= 3) and not (fixed and 1 <= len(free) <= 3):
-        return None
     impossible = _exclusions(atoms)
+    if not (2 <= len(free) <= (4 if impossible is not None else 3)) and not (fixed and 1 <= len(free) <= 3):
+        return None
     if not any(sum(1 for o in occ if k in o) >= 2 for k in atoms) and impossible is None:
         return None                     # every condition asked once: a plain else-if chain, left as written
     if fixed and impossible is None:
